@@ -21,7 +21,18 @@ type checkFn func(c *core.Ctx, replay string) (*core.Result, error)
 
 var checks = map[string]checkFn{}
 
+var workers = map[string]func(args []string){}
+
 func main() {
+	if len(os.Args) >= 3 && os.Args[1] == "__worker" {
+		w, ok := workers[os.Args[2]]
+		if !ok {
+			fmt.Fprintln(os.Stderr, "unknown worker", os.Args[2])
+			os.Exit(2)
+		}
+		w(os.Args[3:])
+		return
+	}
 	if len(os.Args) < 3 {
 		fmt.Fprintln(os.Stderr, "usage: verif <Cxx> <quick|thorough> [--replay file]")
 		os.Exit(2)
